@@ -455,3 +455,23 @@ Proof.
 Qed.
 Lemma decode_unregistered v p : decode false v p = None.
 Proof. reflexivity. Qed.
+
+(* an error code does cross: no compression below 10 bytes, length-preserving cipher *)
+Lemma errno_crosses c thr enc e p : coders_ok c -> clean (flg p) -> in_s 32 e ->
+  10 <= thr -> (forall b, length (encrypt c b) = length b) -> Z.of_nat (length (refers p)) <= 255 ->
+  (exists q, wire_v1 c thr enc enc (set_errno e p) = Some q /\ errno q = e) /\
+  (exists q, wire_v2 c thr enc enc (set_errno e p) = Some q /\ errno q = e).
+Proof.
+  intros Hc Hcl He Hthr Hlen Hrf.
+  assert (Hcl' : clean (flg (set_errno e p))) by (cbn; apply ff_err_clean; assumption).
+  pose proof (errno_payload_small c thr enc e p Hthr Hlen) as Hsmall.
+  split.
+  - assert (H1 : wire_v1 c thr enc enc (set_errno e p) = Some (v1_result (set_errno e p))).
+    { apply wire_v1_complete; [assumption|assumption|]. unfold codec_V1HeaderSize, codec_V1MaxPayloadBytes. lia. }
+    eexists. split; [exact H1|]. exact (errno_wire_v1 c thr enc e p _ Hc Hcl He H1).
+  - assert (H2 : wire_v2 c thr enc enc (set_errno e p) = Some (v2_result (set_errno e p))).
+    { apply wire_v2_complete; [assumption|assumption|exact Hrf|].
+      change (refers (set_errno e p)) with (refers p).
+      unfold codec_V2HeaderSize, codec_V2MaxPayloadBytes. lia. }
+    eexists. split; [exact H2|]. exact (errno_wire_v2 c thr enc e p _ Hc Hcl He H2).
+Qed.
